@@ -54,6 +54,7 @@ class CisLink:
     cig_id: int
     acl_connection: Connection | None = None
     data_paths: set[int] = dataclasses.field(default_factory=set)
+    established: bool = False
 
 
 # -----------------------------------------------------------------------------
@@ -721,6 +722,25 @@ class Controller:
         advertiser.stop()
 
     def on_le_disconnected(self, connection: Connection, reason: int) -> None:
+        # The CIS links that ride on this connection go away with it: the host is
+        # told about each of them before it is told about the connection itself.
+        for cis_link in [
+            cis_link
+            for cis_link in itertools.chain(
+                self.central_cis_links.values(), self.peripheral_cis_links.values()
+            )
+            if cis_link.acl_connection is connection
+        ]:
+            if cis_link.established:
+                self.on_le_cis_disconnected(cis_link.cig_id, cis_link.cis_id, reason)
+            elif cis_link.handle in self.central_cis_links:
+                # Requested with LE Create CIS, will never be established
+                self.on_le_cis_established(cis_link.cig_id, cis_link.cis_id, reason)
+                cis_link.acl_connection = None
+            else:
+                # Request not answered by the host yet
+                del self.peripheral_cis_links[cis_link.handle]
+
         # Send a disconnection complete event
         self.send_hci_packet(
             hci.HCI_Disconnection_Complete_Event(
@@ -944,9 +964,11 @@ class Controller:
             )
         )
 
-    def on_le_cis_established(self, cig_id: int, cis_id: int) -> None:
+    def on_le_cis_established(
+        self, cig_id: int, cis_id: int, status: int = hci.HCI_ErrorCode.SUCCESS
+    ) -> None:
         '''
-        Called when an incoming CIS established.
+        Called when an incoming CIS established (or failed to be established).
         '''
 
         cis_link = next(
@@ -956,10 +978,11 @@ class Controller:
             )
             if cis_link.cis_id == cis_id and cis_link.cig_id == cig_id
         )
+        cis_link.established = status == hci.HCI_ErrorCode.SUCCESS
 
         self.send_hci_packet(
             hci.HCI_LE_CIS_Established_Event(
-                status=hci.HCI_ErrorCode.SUCCESS,
+                status=status,
                 connection_handle=cis_link.handle,
                 # CIS parameters are ignored.
                 cig_sync_delay=0,
@@ -979,7 +1002,12 @@ class Controller:
             )
         )
 
-    def on_le_cis_disconnected(self, cig_id: int, cis_id: int) -> None:
+    def on_le_cis_disconnected(
+        self,
+        cig_id: int,
+        cis_id: int,
+        reason: int = hci.HCI_ErrorCode.REMOTE_USER_TERMINATED_CONNECTION_ERROR,
+    ) -> None:
         '''
         Called when a CIS disconnected.
         '''
@@ -1007,11 +1035,12 @@ class Controller:
         else:
             return
 
+        cis_link.established = False
         self.send_hci_packet(
             hci.HCI_Disconnection_Complete_Event(
                 status=hci.HCI_ErrorCode.SUCCESS,
                 connection_handle=cis_link.handle,
-                reason=hci.HCI_ErrorCode.REMOTE_USER_TERMINATED_CONNECTION_ERROR,
+                reason=reason,
             )
         )
 
